@@ -773,6 +773,9 @@ pub fn mpmc_fut_queue<T>(capacity: Index) -> (MPMCFutSender<T>, MPMCFutReceiver<
 unsafe impl<T: Send> Send for MPMCSender<T> {}
 unsafe impl<T: Send> Send for MPMCReceiver<T> {}
 unsafe impl<T: Send> Send for MPMCUniReceiver<T> {}
+unsafe impl<T: Send> Send for MPMCFutSender<T> {}
+unsafe impl<T: Send> Send for MPMCFutReceiver<T> {}
+unsafe impl<R, F: FnMut(&T) -> R + Send, T: Send> Send for MPMCFutUniReceiver<R, F, T> {}
 
 #[cfg(test)]
 mod test {
